@@ -1,26 +1,38 @@
 import LunaVerif.Core.Proto
 import LunaVerif.Model.Phy.FsCodec
+import LunaVerif.Model.Phy.FsTx
 open LunaVerif LunaVerif.Proto LunaVerif.FsCodec
 
-/-- config line: `# sub` where sub = 1: `encode` (row = the bytes of one packet; output = `n sym_1 … sym_n`,
+structure DrvState where
+  sub   : Nat
+  phase : Nat
+  tx    : FsTx.St
+
+/-- config line: `# sub [phase]` where sub = 1: `encode` (row = the bytes of one packet; output = `n sym_1 … sym_n`,
 symbols 0 = SE0, 1 = J, 2 = K, one per bit time);
 sub = 2: `decode` (row = symbols, one per bit time; output = `kind nbytes bytes…`, kind 0 = ok, 1 = stuffing
 violation, 2 = malformed);
 sub = 3: `glue` (row = `op_mode tx_valid tx_data[0] term_select dp_pulldown dm_pulldown txOe txP txN`;
-output = `d_p.o d_n.o oe pullup.o pulldown.o`). -/
+output = `d_p.o d_n.o oe pullup.o pulldown.o`);
+sub = 4: the cycle-level transmit path `FsTx.step phase` (row = one usb_io cycle: `tx_valid tx_data`;
+output = `tx_ready d_p.o d_n.o oe fit_dat fit_oe`). -/
 def main : IO Unit :=
-  runDriver (σ := Nat)
-    (fun cfg => fld cfg 0)
-    (fun sub r =>
-      if sub == 1 then
+  runDriver (σ := DrvState)
+    (fun cfg => ⟨fld cfg 0, fld cfg 1, {}⟩)
+    (fun st r =>
+      if st.sub == 1 then
         let w := encode r
-        (sub, w.length :: w.map Sym.toNat)
-      else if sub == 2 then
+        (st, w.length :: w.map Sym.toNat)
+      else if st.sub == 2 then
         match decode (r.map Sym.ofCode) with
-        | .ok bs => (sub, 0 :: bs.length :: bs)
-        | .stuffError => (sub, [1, 0])
-        | .malformed => (sub, [2, 0])
-      else
+        | .ok bs => (st, 0 :: bs.length :: bs)
+        | .stuffError => (st, [1, 0])
+        | .malformed => (st, [2, 0])
+      else if st.sub == 3 then
         let o := glue ⟨fld r 0, n2b (fld r 1), n2b (fld r 2), n2b (fld r 3), n2b (fld r 4), n2b (fld r 5),
                        n2b (fld r 6), n2b (fld r 7), n2b (fld r 8)⟩
-        (sub, [b2n o.dpO, b2n o.dnO, b2n o.oe, b2n o.pullup, b2n o.pulldown]))
+        (st, [b2n o.dpO, b2n o.dnO, b2n o.oe, b2n o.pullup, b2n o.pulldown])
+      else
+        let (s', o) := FsTx.step st.phase st.tx ⟨n2b (fld r 0), fld r 1⟩
+        ({ st with tx := s' },
+         [b2n o.ready, b2n o.dP, b2n o.dN, b2n o.oe, b2n st.tx.tx.fitDat, b2n st.tx.tx.fitOe]))
